@@ -28,12 +28,18 @@ only to explain a disagreement.
 Search: the same runs are compared with the array specification (Coq arr_run + an independent
 Python array written from the property text); ROM reads with data[a].
 
-Verilog: the exported text is checked for its memory fragment (declaration size, write under enable
-at posedge clk, asynchronous read assign); the fragment is extracted twice -- by regexes here and,
-when available, by the fail-closed Verilog-2001 reader py/verilog_reader.py written for C05 -- and
-evaluated by a 30-line interpreter (alias assigns, memory read assigns, non-blocking enabled
-writes) against the array spec; Mem/MemDefs.v vlog_step is the Coq model of that fragment
-(C08_refines_array_verilog).  The full-module Verilog semantics is C05's subject.
+Verilog: the exported text is (a) checked for the shape of its memory fragment (declaration size, enabled
+non-blocking writes under posedge clk, asynchronous read assigns) and (b) parsed by the fail-closed
+Verilog-2001 reader py/verilog_reader.py into the AST of IO/VerilogSyn.v and RUN AS A WHOLE MODULE
+inside Coq under IO/VerilogSem.v (the formalisation of the emitted subset written for C05): outputs of
+every cycle and memory words during and after the run are compared, inside Coq, with what the array
+specification expects (Mem/MemVerilog.v vlog_module_check; every cycle's valuation is re-checked
+against all continuous assignments, the evaluation order supplied here is only a hint).  This covers
+every port form (registers, constants, concat-tagged addresses, conditional_assignment muxes).
+C08_verilog_module_memory_is_array proves, for EVERY module of the subset and every run of that
+semantics, that each memory is the array driven by what its write statements and read assigns
+present; C08_verilog_evaluated_run_is_a_trace that the evaluated run is such a run.  Modules the
+reader rejects (its 65536-bit limit on ranges: memories deeper than 2^16 words) get (a) only.
 """
 import ctypes
 import io
@@ -59,23 +65,29 @@ RULE = ('(1) 2-word x 1-bit MemBlock, (nw,nr) write/read ports: every content (e
         'twin design (two 2-word memories sharing the address inputs) under a De Bruijn walk of all 64 joint operations; '
         '(3) RomBlocks from list/dict/function, short/sparse/out-of-range data, '
         'pad_with_zeros; (4) the C hash-map helpers alone with 1..256 buckets.  Back-ends: Simulation, FastSimulation, '
-        'CompiledSimulation (sub-design with addrwidth <= 64 when it rejects wider ones), Simulation after synthesize() '
-        '(merged and 1-bit I/O), after optimize(), Verilog memory fragment.  A case = one '
+        'CompiledSimulation (sub-design with addrwidth <= 64 when it rejects wider ones), all three simulators after '
+        'synthesize() (merged and 1-bit I/O), optimize() and both, and the exported Verilog module run as a whole under '
+        'IO/VerilogSem.v inside Coq (every port form; memories up to 2^16 words).  A case = one '
         '(memory, history, back-end); distinct by its full content; non-trivial when at least one read returned a word '
         'written earlier in the run and at least one enabled write happened')
 IMPORTS = 'From PyRTL Require Import Mem.MemDefs Mem.MemHarness.'
 COQ_TARGETS = ['theories/Mem/MemHarness.vo', 'theories/Mem/MemVerilog.vo']
 ASSUMPTIONS = [
-    'enabled write addresses within one cycle are pairwise distinct (by construction of the stimulus)',
+    'enabled write addresses within one cycle are pairwise distinct (by construction of the stimulus; re-checked '
+    'inside Coq on every evaluated history: cycle_okb)',
     'CompiledSimulation is compared only with default_value = 0 (non-zero default for memories is documented as unsupported)',
-    'memory_value_map / write data / addresses are within the declared widths (the simulators validate this)',
-    'Verilog: only the memory fragment of the exported text is evaluated (tiny interpreter in this file); '
-    'initial contents are supplied to it directly (MemBlock initial values are not part of the exported module)',
+    'memory_value_map / write data / addresses are within the declared widths',
+    'Verilog: registers and uninitialised memory words start at 0 and initial memory contents are supplied to the '
+    'semantics directly (x/z values are not modelled; MemBlock initial values are not part of the exported module); '
+    'modules with a memory deeper than 2^16 words are rejected by the C05 reader (range limit) and only get the '
+    'text-shape check of the memory fragment',
     'C hash map: pointer code is modelled as lists of (key, limbs) chains; malloc never fails',
 ]
 TRUSTED = ['Mem/MemDefs.v arr_step/arr_run/hist_reads (array specification, proved equal to "word last written in a '
-           'strictly earlier cycle"), rom_spec (data[a]); the Python array spec_run in py/checks/C08.py; the '
-           'Verilog memory-fragment interpreter in py/checks/C08.py']
+           'strictly earlier cycle"), rom_spec (data[a]); the Python array spec_run in py/checks/C08.py; '
+           'IO/VerilogSyn.v + IO/VerilogSem.v (C05: formalisation of the emitted IEEE 1364-2001 subset) and '
+           'py/verilog_reader.py (fail-closed parser of that subset) for the Verilog back-end; the ctypes mirror of '
+           'the C structs']
 
 M64 = (1 << 64) - 1
 _REPORTED = {}
